@@ -43,6 +43,7 @@ var (
 	oWd      map[int]int
 	oTrk     map[int]int
 	oExcess  map[int]int64
+	oNProp    int // proposals accepted in the open block
 	oQueued  *hx.Violation // a second violation found at the same `end`, reported at the next op
 )
 
@@ -73,11 +74,16 @@ func oracle(t []string, out string) *hx.Violation {
 		if len(t) >= 8 {
 			oStage, oUsed0 = i64(t[1]), i64(t[2])
 		}
+		if len(t) >= 9 {
+			oUsed0 = i64(t[8])
+		}
 		fallthrough
 	case "begin":
 		oWd, oTrk = map[int]int{}, map[int]int{}
+		oNProp = 0
 	case "propose":
 		if out == "accept" {
+			oNProp++
 			p := &oProp{budgets: map[int]int64{}}
 			for _, b := range parseBudgets(t[2]) {
 				p.budgets[int(b.Stage)] = int64(b.Amount)
@@ -85,7 +91,7 @@ func oracle(t []string, out string) *hx.Violation {
 			}
 			oProps[int(i64(t[1]))] = p
 		}
-	case "withdraw":
+	case "withdraw", "withdraw0":
 		if out == "accept" {
 			oWd[int(i64(t[1]))]++
 		}
@@ -154,8 +160,10 @@ func oracle(t []string, out string) *hx.Violation {
 				oQueued = v
 			}
 		}
-		if viol == nil && committed+oUsed0 > stage && used <= stage {
-			viol = &hx.Violation{Kind: "overcommit", Detail: fmt.Sprintf("committed=%d stage=%d", committed+oUsed0, stage)}
+		if viol == nil && committed+oUsed0 > stage {
+			viol = &hx.Violation{Kind: "overcommit", Detail: fmt.Sprintf(
+				"proposals_in_block=%d committed=%d stage=%d: the budgets of the live proposals exceed the committee's stage amount", oNProp, committed+oUsed0, stage)}
+			oUsed0 -= committed + oUsed0 - stage // report each excess once
 		}
 		return viol
 	}
@@ -191,6 +199,7 @@ type genState struct {
 	next int
 	ids  []int
 	later []string
+	tight bool
 }
 
 func (s *genState) block(body func()) {
@@ -274,12 +283,63 @@ func (s *genState) pick() (int, *crstate.ProposalState) {
 	return id, w.cm.GetProposal(w.props[id].hash)
 }
 
+// payload-version-0 withdrawal: committee UTXOs in, recipient + change out
+func (s *genState) withdraw0(id int, avail int64) bool {
+	r := s.r
+	var ids []string
+	var inp int64
+	for i, u := range w.cutxos {
+		if u.spent || w.cIn[i] || u.born >= w.height {
+			continue
+		}
+		ids = append(ids, strconv.Itoa(i))
+		inp += int64(u.value)
+		if inp > avail && r.Chance(70) {
+			break
+		}
+	}
+	if len(ids) == 0 || inp < avail || avail < 2000 {
+		return false
+	}
+	fee := int64(r.Pick(100, 1000, 1000, 99))
+	out0 := avail - fee
+	switch r.Intn(12) {
+	case 0:
+		out0++
+	case 1:
+		out0--
+	}
+	out1 := inp - avail
+	toC := 1
+	if r.Chance(20) { // the change leaves the committee address
+		toC = 0
+	}
+	o1 := strconv.FormatInt(out1, 10)
+	if out1 == 0 {
+		o1 = "-"
+	}
+	s.g.Emit("withdraw0 %d %d %d %s %d %s", id, inp, out0, o1, toC, strings.Join(ids, ","))
+	return true
+}
+
 func (s *genState) randomTx() {
 	r := s.r
 	switch r.Intn(12) {
 	case 0, 1:
 		id := s.next
 		s.next++
+		if s.tight && r.Chance(50) { // a second proposal in the same block: only the running block total keeps them within the funds
+			defer func() {
+				id2 := s.next
+				s.next++
+				if s.g.Emit("propose %d %s", id2, s.budgets()) == "accept" {
+					s.ids = append(s.ids, id2)
+					for m := 0; m < nMembers; m++ {
+						s.later = append(s.later, fmt.Sprintf("review %d %d a", id2, m))
+					}
+				}
+			}()
+		}
 		if s.g.Emit("propose %d %s", id, s.budgets()) == "accept" {
 			s.ids = append(s.ids, id)
 			// the council reviews in the following block (a review in the block of the proposal is lost)
@@ -337,10 +397,15 @@ func (s *genState) randomTx() {
 				s.g.Emit("track %d t %d", id, st)
 			}
 		}
+	case 7:
+		s.g.Emit("fund %d", int64(r.Pick(500, 2000, 5000, 20000))*ela+int64(r.Intn(3)))
 	default:
 		if id, ps := s.pick(); ps != nil {
 			avail := int64(w.cm.AvailableWithdrawalAmount(w.props[id].hash))
 			if avail == 0 && r.Chance(70) {
+				return
+			}
+			if r.Chance(35) && s.withdraw0(id, avail) {
 				return
 			}
 			amt := avail
@@ -363,7 +428,13 @@ func (s *genState) randomTx() {
 func history(g *hx.Gen, r *hx.Rand, blocks int) {
 	s := &genState{g: g, r: r}
 	used0 := int64(r.Pick(0, 0, 0, 1000, 60000)) * ela
-	g.Emit("reset %d %d %d %d %d %d %d", stageAmount, used0, crPeriod, pubPeriod, agreeCount, wdFee, rejectThr)
+	if r.Chance(35) { // little is left of the stage amount although the 10%% cap is still large: proposals compete
+		s.tight = true
+		g.Emit("reset %d %d %d %d %d %d %d %d", stageAmount, 0, crPeriod, pubPeriod, agreeCount, wdFee, rejectThr,
+			stageAmount-int64(r.Pick(3000, 6000, 9000, 12000, 15000))*ela)
+	} else {
+		g.Emit("reset %d %d %d %d %d %d %d", stageAmount, used0, crPeriod, pubPeriod, agreeCount, wdFee, rejectThr)
+	}
 	s.h = 1
 	for b := 0; b < blocks; b++ {
 		s.block(func() {
